@@ -29,6 +29,8 @@ type Config struct {
 
 // Body is one loaded code body.
 type Body struct {
+	helperValMemo map[interface{}]int
+	initReachMemo map[*ssa.Function]map[int]bool
 	Name  string // "v5" or "legacy"
 	Dir   string
 	Pkgs  []*packages.Package
